@@ -15,17 +15,77 @@ pub fn slug(s: &str) -> String {
     out.trim_matches('-').to_string()
 }
 
+/// `budget_s`: wall budget; a loom run that exceeds it is stopped and reported as a cap (not exhaustive), never as a verdict.
+pub fn run_with_budget(scn: &str, pb: Option<u64>, budget_s: f64, res: &mut PartResult) {
+    run_inner(scn, pb, budget_s, res)
+}
+
 pub fn run(scn: &str, pb: Option<u64>, res: &mut PartResult) {
+    run_inner(scn, pb, 1e9, res)
+}
+
+fn run_inner(scn: &str, pb: Option<u64>, budget_s: f64, res: &mut PartResult) {
     res.engine = "E2 loom 0.7.2 on the path-included repository source".into();
     let exe = std::env::var("VERIF_LOOMH").unwrap_or_else(|_| "/verif/target/loom/release/loomh".into());
     let pbs = pb.map(|p| p.to_string()).unwrap_or_else(|| "none".into());
-    let out = match Command::new(&exe).arg(scn).arg(&pbs).env("LOOM_MAX_BRANCHES", "100000").output() {
-        Ok(o) => o,
+    let mut child = match Command::new(&exe).arg(scn).arg(&pbs).env("LOOM_MAX_BRANCHES", "100000").stdout(std::process::Stdio::piped()).stderr(std::process::Stdio::piped()).spawn() {
+        Ok(c) => c,
         Err(e) => {
             res.error = Some(format!("cannot run {}: {}", exe, e));
             return;
         }
     };
+    // drain the pipes on helper threads so that a chatty failure cannot block the child
+    let mut so = child.stdout.take().unwrap();
+    let mut se = child.stderr.take().unwrap();
+    let t1 = std::thread::spawn(move || {
+        let mut v = Vec::new();
+        let _ = std::io::Read::read_to_end(&mut so, &mut v);
+        v
+    });
+    let t2 = std::thread::spawn(move || {
+        let mut v = Vec::new();
+        let _ = std::io::Read::read_to_end(&mut se, &mut v);
+        v
+    });
+    let t0 = std::time::Instant::now();
+    let status = loop {
+        match child.try_wait() {
+            Ok(Some(st)) => break Some(st),
+            Ok(None) => {
+                if t0.elapsed().as_secs_f64() > budget_s {
+                    let _ = child.kill();
+                    let _ = child.wait();
+                    break None;
+                }
+                std::thread::sleep(std::time::Duration::from_millis(20));
+            }
+            Err(e) => {
+                res.error = Some(format!("wait: {}", e));
+                return;
+            }
+        }
+    };
+    let (stdout_b, stderr_b) = (t1.join().unwrap_or_default(), t2.join().unwrap_or_default());
+    let status = match status {
+        Some(s) => s,
+        None => {
+            res.bound = json!({"loom_preemption_bound": pb, "scenario": scn});
+            res.exhaustive = false;
+            res.cap_hit = Some(format!("loom exploration stopped after the wall budget of {:.0}s: no failure found so far, space not exhausted", budget_s));
+            res.executions = 1;
+            res.states = 1;
+            res.transitions = 1;
+            res.sample(json!({"scenario": scn, "note": "stopped at the wall budget"}));
+            return;
+        }
+    };
+    struct Out {
+        status: std::process::ExitStatus,
+        stdout: Vec<u8>,
+        stderr: Vec<u8>,
+    }
+    let out = Out { status, stdout: stdout_b, stderr: stderr_b };
     let stdout = String::from_utf8_lossy(&out.stdout).to_string();
     let stderr = String::from_utf8_lossy(&out.stderr).to_string();
     res.bound = json!({"loom_preemption_bound": pb, "scenario": scn});
